@@ -87,7 +87,7 @@ def make_call(rng, entry, pattern, str_dtype=False):
             for c in spec['cols']:
                 dt = spec['dtypes'].get(c)
                 spec['data'][c].append(1 if c.endswith('id') else ('a b' if c.endswith('attr') else
-                                       (0 if dt in ('int64',) else (0.5 if dt == 'float64' else
+                                       (0 if str(dt).startswith('int') else (0.5 if str(dt).startswith('float') else
                                         (True if dt == 'bool' else 'v')))))
             if c.endswith('id') and isinstance(spec['data'][side + 'id'][0], int) is False:
                 pass
